@@ -42,7 +42,7 @@ PROFILES = {
         design=[("MuxPool", "mp_cur2.cfg", True), ("MuxPool", "mp_fix2.cfg", True), ("MuxPool", "mp_fix1.cfg", True),
                 ("MuxPoolTick", "mp_tick2.cfg", True),
                 ("MuxPool", "mp_cls_sesserr.cfg", False), ("MuxPool", "mp_cls_ret.cfg", False), ("MuxPool", "mp_cls_add.cfg", False)],
-        bfs=[("bfs_n1.cfg", 1, 400)], gen=[("sim_n2.cfg", 2, 60), ("sim_n3.cfg", 3, 60)], limit=1600),
+        bfs=[("bfs_n1.cfg", 1, None)], gen=[("sim_n2.cfg", 2, 150), ("sim_n3.cfg", 3, 150)], limit=2500),
     "thorough": dict(
         design=[("MuxPool", "mp_cur2.cfg", True), ("MuxPool", "mp_cur3.cfg", True), ("MuxPool", "mp_fix1.cfg", True),
                 ("MuxPool", "mp_fix2.cfg", True), ("MuxPool", "mp_fix3.cfg", True), ("MuxPool", "mp_fix3_t.cfg", True),
